@@ -31,7 +31,10 @@ FULL = ("slice", None, None, None)
 def check_split(rep, repo, name, with_index):
     fi = repo.need_function(SPLIT, name)
     from ..rules_premise import values_view
-    w = values_view(Walker(repo, fi, inline=inline_same_module_private(fi)))
+    w0 = Walker(repo, fi, inline=inline_same_module_private(fi))
+    from ..rules_premise import check_function_inplace
+    check_function_inplace(rep, w0, "SPLIT-inplace", name)
+    w = values_view(w0)
     X, Y = ("param", "X"), ("param", "Y")
     rng = [e for e in w.events if e.kind == "call" and e.target is not None and e.target[0] == "mod"
            and (e.target[1].startswith("numpy.random.") or e.target[1].startswith("random."))]
